@@ -136,6 +136,8 @@ type Job struct {
 	Repl  bool              `json:"repl"` // pass -i
 	// parent only: this call already stalled once in an earlier run; skip the pool and go straight to the solitary re-runs
 	Confirm bool `json:"confirm"`
+	// parent only: "fn/arity", groups the stalls of one function
+	Key string `json:"key"`
 }
 
 type Res struct {
@@ -209,6 +211,29 @@ func work(raw json.RawMessage) any {
 
 // ---------------------------------------------------------------------------------------- parent
 
+// compactStack drops the file:line rows of a Go traceback (keeps the function rows) so that deep stacks still show
+// the fq frames inside the size budget of an event.
+func compactStack(msg string, n int) string {
+	if len(msg) <= n {
+		return msg
+	}
+	var b strings.Builder
+	for _, l := range strings.Split(msg, "\n") {
+		if strings.HasPrefix(l, "\t") {
+			continue
+		}
+		if k := strings.LastIndexByte(l, '('); k > 0 && strings.HasSuffix(l, ")") && !strings.HasPrefix(l, "goroutine ") {
+			l = l[:k] + "(...)"
+		}
+		if b.Len()+len(l) > n {
+			break
+		}
+		b.WriteString(l)
+		b.WriteByte('\n')
+	}
+	return b.String()
+}
+
 func faultClass(outcome, msg string) string {
 	// kit.RunPool calls every death it cannot name "fatal"; a Go panic on another goroutine is still a panic
 	if outcome == "fatal" && (strings.HasPrefix(msg, "panic: ") || strings.Contains(msg, "\npanic: ")) &&
@@ -273,6 +298,8 @@ func runAll(jobsPath, outPath string, n int, memKB int64, sec int, deferStalls b
 		Ms      int64  `json:"ms"`
 		Retried int    `json:"retried"`
 		Stalls  int    `json:"stalls"`
+		// hang not re-run itself: another call of the same function is a confirmed hang in this run
+		Attributed bool `json:"attributed"`
 	}
 	recs := make([]rec, len(jobs))
 	// A stall counts as a hang only if the same call, alone in a fresh worker, stalls twice more (DESIGN section 3).
@@ -280,32 +307,76 @@ func runAll(jobsPath, outPath string, n int, memKB int64, sec int, deferStalls b
 	// Confirmation starts as soon as the stall is seen and runs beside the pool (each re-run has its own process).
 	var mu sync.Mutex
 	var wg sync.WaitGroup
-	sem := make(chan struct{}, 6)
+	sem := make(chan struct{}, 4)
+	// solitary re-runs: CPU budget instead of wall clock (see alone.go); 25 CPU-seconds is three times the slowest
+	// legitimate call seen (quadratic jq helpers over the 64 KiB string, 7-8 CPU-seconds)
+	cpuBudget := 1.25 * float64(sec)
+	wallCap := 10 * per
 	nhung := 0
+	// Stalls of one function are confirmed one after the other; once one call of a function is a confirmed hang, the
+	// later stalls of the same function are attributed to it (Attributed = true, same finding signature) instead of
+	// spending two more solitary re-runs each.
+	keyOf := func(id int) string {
+		var j Job
+		kit.Unmarshal(jobs[id], &j)
+		return j.Key
+	}
+	keyMu := map[string]*sync.Mutex{}
+	keyHung := map[string]string{} // key -> goroutine dump of the confirmed hang
 	confirm := func(id int) {
 		defer wg.Done()
+		key := keyOf(id)
+		mu.Lock()
+		km := keyMu[key]
+		if km == nil {
+			km = &sync.Mutex{}
+			keyMu[key] = km
+		}
+		mu.Unlock()
+		km.Lock()
+		defer km.Unlock()
+		mu.Lock()
+		dump, already := keyHung[key]
+		if already && key != "" {
+			recs[id].Outcome, recs[id].Msg, recs[id].Attributed = "hang", dump, true
+			mu.Unlock()
+			return
+		}
+		mu.Unlock()
 		sem <- struct{}{}
 		defer func() { <-sem }()
-		stalls, tries := 0, 0
+		stalls, tries := 0, 2
 		var done *rec
-		for k := 0; k < 2 && done == nil; k++ {
-			tries++
-			kit.RunPool(self, []string{"worker"}, jobs[id:id+1], 1, memKB, 2*per, func(r kit.PoolResult) {
+		last := ""
+		// the two solitary re-runs, each in its own fresh worker, side by side
+		var rw sync.WaitGroup
+		var rmu sync.Mutex
+		for k := 0; k < 2; k++ {
+			rw.Add(1)
+			go func() {
+				defer rw.Done()
+				r := runAlone(self, jobs[id], memKB, cpuBudget, wallCap)
 				oc, msg, res := classify(r)
+				rmu.Lock()
+				defer rmu.Unlock()
 				if oc == "hang" {
 					stalls++
-				} else {
-					done = &rec{Outcome: oc, Msg: cut(msg, 6000), Ms: res.Ms}
+					last = msg
+				} else if done == nil {
+					done = &rec{Outcome: oc, Msg: compactStack(msg, 8000), Ms: res.Ms}
 				}
-			})
+			}()
 		}
+		rw.Wait()
 		mu.Lock()
 		defer mu.Unlock()
 		if done != nil {
 			done.Retried, done.Stalls = tries, stalls+1
 			recs[id] = *done
 		} else {
+			recs[id].Outcome, recs[id].Msg = "hang", compactStack(last, 8000)
 			recs[id].Retried, recs[id].Stalls = tries, stalls+1
+			keyHung[key] = compactStack(last, 8000)
 		}
 	}
 	// A process death in a worker that has already served other calls can be an artefact of that history (address
@@ -315,17 +386,16 @@ func runAll(jobsPath, outPath string, n int, memKB int64, sec int, deferStalls b
 		defer wg.Done()
 		sem <- struct{}{}
 		defer func() { <-sem }()
-		kit.RunPool(self, []string{"worker"}, jobs[id:id+1], 1, memKB, 2*per, func(r kit.PoolResult) {
-			oc, msg, res := classify(r)
-			mu.Lock()
-			defer mu.Unlock()
-			recs[id] = rec{Outcome: oc, Msg: cut(msg, 6000), Ms: res.Ms, Retried: 1}
-			if oc == "hang" {
-				recs[id].Stalls = 1
-				wg.Add(1)
-				go confirm(id)
-			}
-		})
+		r := runAlone(self, jobs[id], memKB, cpuBudget, wallCap)
+		oc, msg, res := classify(r)
+		mu.Lock()
+		defer mu.Unlock()
+		recs[id] = rec{Outcome: oc, Msg: compactStack(msg, 8000), Ms: res.Ms, Retried: 1}
+		if oc == "hang" {
+			recs[id].Stalls = 1
+			wg.Add(1)
+			go confirm(id)
+		}
 	}
 	var poolJobs []json.RawMessage
 	var poolIDs []int
@@ -348,7 +418,7 @@ func runAll(jobsPath, outPath string, n int, memKB int64, sec int, deferStalls b
 			oc = "stall"
 		}
 		mu.Lock()
-		recs[r.ID] = rec{Outcome: oc, Msg: cut(msg, 6000), Ms: res.Ms}
+		recs[r.ID] = rec{Outcome: oc, Msg: compactStack(msg, 8000), Ms: res.Ms}
 		mu.Unlock()
 		if oc == "hang" {
 			nhung++
@@ -365,7 +435,7 @@ func runAll(jobsPath, outPath string, n int, memKB int64, sec int, deferStalls b
 	wg.Wait()
 	out := kit.NewOut(outPath)
 	for id, r := range recs {
-		out.Emit(map[string]any{"id": id, "outcome": r.Outcome, "msg": r.Msg, "ms": r.Ms, "retried": r.Retried, "stalls": r.Stalls})
+		out.Emit(map[string]any{"id": id, "outcome": r.Outcome, "msg": r.Msg, "ms": r.Ms, "retried": r.Retried, "stalls": r.Stalls, "attributed": r.Attributed})
 	}
 	out.Close()
 }
